@@ -49,12 +49,13 @@ def payload(sizes, base):
 def programs(tier):
     progs = []
     if tier == "quick":
-        msgsets = [([1, 100], [0, 16385]), ([16384], [1]), ([0, 3], []), ([2, 5, 3], [4, 4])]
+        msgsets = [([1, 100], [0, 16385]), ([16384], [1]), ([0, 3], []), ([2, 5, 3], [4, 4]),
+                   ([70000], [])]
         recvs = [4, 7, 65536]
         policies = ["all", "1", "7"]
     else:
         msgsets = [([0, 1, 100], [16384]), ([16385, 1], [40000]), ([40000, 16384, 1], [100, 0]),
-                   ([1], [1]), ([], [16385])]
+                   ([1], [1]), ([], [16385]), ([70000], []), ([], [140000, 1])]
         recvs = [1, 7, 65536]
         policies = ["all", "1", "2", "7"]
     for ver in ("1.2", "1.3"):
@@ -66,6 +67,8 @@ def programs(tier):
                             continue
                         if rs == 4 and sum(cm) + sum(sm) > 100:
                             continue
+                        if sum(cm) + sum(sm) > 50000 and (pol != "all" or rs < 100):
+                            continue  # more ciphertext than one transport write, idle sender
                         if rs == 1 and sum(cm) + sum(sm) > 2000:
                             continue
                         for delay in (False, True):
@@ -141,6 +144,15 @@ def build(world, program):
                         log("recv_end", role, type(e).__name__)
                         if isinstance(e, asyncio.CancelledError):
                             raise
+                        if isinstance(e, BrokenResourceError):
+                            # a caller that asks again must not be told a different story
+                            try:
+                                await stream.receive(rs)
+                                log("recv_again", role, "data")
+                            except BaseException as e2:
+                                log("recv_again", role, type(e2).__name__)
+                                if isinstance(e2, asyncio.CancelledError):
+                                    raise
                         return False
                     log("recv", role, len(data), data[:4].hex(), data[-2:].hex())
                     chunks[role].append(data)
@@ -231,6 +243,12 @@ def check(program, ex):
             if sc and end == "EndOfStream":
                 v.append(f"truncated transport (cut {cut[0][4:] if cut else ''}) was reported to "
                          f"the {role} as a clean EndOfStream with standard_compatible=True")
+            again = [x[4] for i, x in enumerate(log) if x[2] == "recv_again" and x[3] == role
+                     and i > kill_idx]
+            if sc and end == "BrokenResourceError" and again and again[0] == "EndOfStream":
+                v.append(f"truncated transport: {role}.receive() raised BrokenResourceError and "
+                         f"then reported a clean EndOfStream on the next call "
+                         f"(standard_compatible=True)")
             if end not in ("EndOfStream", "BrokenResourceError", "ClosedResourceError"):
                 v.append(f"{role}.receive() ended with unexpected {end} on a truncated transport")
             if not sc and end == "BrokenResourceError" and False:
